@@ -269,6 +269,13 @@ def isPacked (card kind : Nat) (f : GoFeatures) : Bool :=
   else f.isPacked
 
 def enforceUTF8 (f : GoFeatures) : Bool := f.isUTF8Validated
+
+/-- `strs.EnforceUTF8(fd)` as the codecs call it (build tag protolegacy, or an editions file):
+`if fd, ok := fd.(interface{ EnforceUTF8() bool }); ok { return fd.EnforceUTF8() }; return fd.Syntax() == Proto3`.
+`*filedesc.Field` has the method, `*filedesc.Extension` does NOT, so extensions fall through to the syntax test.
+`edition` = 999 is proto3. -/
+def runtimeEnforceUTF8 (edition : Nat) (isExtension : Bool) (f : GoFeatures) : Bool :=
+  if isExtension then edition == editionProto3 else f.isUTF8Validated
 def isClosed (f : GoFeatures) : Bool := !f.isOpenEnum
 
 /-- `protodesc.initEnumDeclarations`: the enum's own `features` are merged. -/
